@@ -36,6 +36,10 @@ for sid in sorted(os.listdir(os.path.join(V, "seeded"))):
         print(sid, prop, "rc=%d" % p.returncode, "%ds" % secs, "failed:", ",".join(f[0] for f in failed), "| undecided:", len(undec), flush=True)
     finally:
         subprocess.run(["git", "-C", "/repo", "worktree", "remove", "--force", wt])
+if os.environ.get("SWEEP_PART"):
+    # one of several parallel parts: only dump this part's rows; tools/seed_merge.py merges them afterwards
+    json.dump(rows, open(os.environ["SWEEP_PART"], "w"), indent=1)
+    sys.exit(0)
 if only:
     # partial sweep: merge the new rows into the recorded results (replace rows of the same seed, keep the others)
     old = json.load(open(os.path.join(V, "seeded", "results.json")))
